@@ -79,6 +79,8 @@ Quoted(v, esc) ==
     [] v.g = "int"   -> Str(IntLit(v.i))
     [] v.g = "float" -> Str(v.lit)
     [] v.g = "str"   -> Str(Enc(Str(GoUtf8(v.bytes)), esc))           \* the string's JSON text (escaped as the switch says) becomes the content
+    [] v.g = "ptr" /\ v.v.g \in {"bool", "int", "float", "str"}        \* a pointer to one of these: null, or the pointee quoted
+                     -> IF v.nil THEN Null ELSE Quoted(v.v, esc)
     [] OTHER         -> GoToJson(v, esc)                                 \* the option is ignored for other kinds
 
 \* members contributed by the fields f[i..] of a struct, in declaration order
